@@ -330,10 +330,31 @@ def run(R):
                     R.bad('C02.R6', 'stream-kind-unrecognised:%s' % t['name'], site(c, bb), 'Streaming::%s builds a decoder with direction %r' % (t['name'], dirn), kind='UNRECOGNISED')
         R.check(len(ne) == 1 and len(nr) == 1, 'C02.R6', 'two-stream-kinds', site(cr), 'decoders built with Direction::EmptyResponse: %d, with Direction::Response: %d' % (len(ne), len(nr)))
         for c, bb, t in nr:
-            sc = c.origin(t['args'][2])
-            R.check('status_code' in show(sc), 'C02.R6', 'new_response-gets-http-status', site(c, bb), 'status argument = %s' % show(sc))
-            g = c.edge_guards(bb)
-            R.check(any('expect_additional_trailers' in show(tm) and (vals == ['else'] or 0 not in vals) for s, vals, tm in g), 'C02.R6', 'new_response-iff-no-status-header', site(c, bb), 'guards: %r' % [(v, show(tm)[:60]) for s, v, tm in g])
+            sc = resolve_env(tonic, c, c.origin(t['args'][2]))
+            R.check('status_code' in show(sc) or term_contains(sc, lambda x: is_call(x, name='status') and 'Response' in x[1]), 'C02.R6', 'new_response-gets-http-status', site(c, bb), 'status argument = %s' % show(sc)[:100])
+            # the full decoder (which expects trailers) only when the headers carried no grpc-status:
+            #  (a) inside the closure, on the true edge of a captured flag that is `true` exactly when from_header_map(..) is None, or
+            #  (b) the closure is built (and used) only on the None arm of from_header_map(..)
+            okn = False
+            fhm = lambda tm: tm[0] == 'discr' and term_contains(tm, lambda x: is_call(x, pat='Status::from_header_map'))
+            for s_, vals, tm in c.edge_guards(bb):
+                if vals == ['else'] or 0 not in vals:
+                    flag = strip_refs(resolve_env(tonic, c, tm))
+                    alts = flag[1] if flag and flag[0] == 'phi' else None
+                    if alts and sorted(str(const_val(x)) for x in alts) == ['False', 'True'] and len(flag) > 2:
+                        # which arm of the parent writes true?
+                        fl = flag[2]
+                        for wb in writers_of(cr, fl):
+                            wv = [const_val(w[1]) for w in block_writes(cr, wb, fl) if w[0] == 'term']
+                            gpar = cr.edge_guards(wb)
+                            none_arm = any(fhm(t2) and v2 in ([0], ['else']) for s2, v2, t2 in gpar)
+                            if wv == [True]:
+                                okn = none_arm
+            if not okn:
+                for ab_, ai_, ap_, aa_, aops_ in mirlib.aggregates(cr):
+                    if aa_.get('kind') == 'closure' and aa_.get('def') == c.path:
+                        okn = any(fhm(t2) and v2 in ([0], ['else']) for s2, v2, t2 in cr.edge_guards(ab_))
+            R.check(okn, 'C02.R6', 'new_response-iff-no-status-header', site(c, bb), 'Streaming::new_response (waits for trailers) is used exactly when Status::from_header_map(headers) is None: %r' % okn)
         sc = cr.calls(name='status')
         R.check(len(sc) == 1, 'C02.R6', 'http-status-captured', site(cr), 'response.status() sites: %d' % len(sc))
 
